@@ -14,6 +14,11 @@ s = s.replace("No property is listed as not applicable. What the family cannot g
 # 2. section 2.2 additions: before "### 2.3"
 a = s.index('### 2.3 What runs inside the child')
 s = s[:a] + rd('sec22.md').lstrip('\n') + '\n' + s[a:]
+# 2b. notes on what was not built as planned
+a = s.index('## 3. Hooks in `/repo`')
+a = s.rindex('---------------------------------------------------------------------------------', 0, a)
+s = s[:a] + rd('sec25note.md').lstrip('\n') + '\n' + s[a:]
+s = s.replace("Thorough tier, optional refinement (same family: coverage-guided fuzzing): the child", "Thorough tier, optional refinement (same family: coverage-guided fuzzing; **not built** - the time went into fault models and aimed generators instead): the child")
 # 3. hook table rows: after the SegQueue shim row
 row = "| `SegQueue` shim |"
 a = s.index(row)
@@ -42,6 +47,12 @@ notes = os.path.join(D, 'seeded_notes.md')
 sec8 = sec8.replace('<!-- SEEDED-NOTES -->', open(notes).read() if os.path.exists(notes) else '')
 sep = '\n---------------------------------------------------------------------------------\n\n'
 s = s[:a] + rd('sec7.md') + sep + sec8 + sep + rd('sec9.md') + sep + s[b:]
+# 4b. section 6 numbers as built
+s = s.replace("| quick | 5000-8000 cases: 3-8 s | regress replays, 32 valgrind cases (2 s), incremental build 1-12 s | 10-30 s |",
+              "| quick | 12 000-16 000 cases: 8-15 s | regress replays, 32 valgrind cases (2 s), incremental build 1-12 s | 15-40 s |")
+s = s.replace("the thorough tier repeats\nthe regress replays on an optimised build without debug assertions.", "(the planned second, optimised build for the thorough tier was not built).")
+s = s.replace("| thorough | 200k-400k cases over both feature sets: 2-5 min | 400 valgrind cases (25 s); C03/C04/C19: three libFuzzer campaigns of 2M inputs on 16 jobs (~3.5 min each incl. the empty-corpus run) | 3-9 min |",
+              "| thorough | 100k-400k cases over both feature sets: 1-5 min | 400 valgrind cases (1-2 min); C03/C04/C19: libFuzzer + ASan campaigns (125 000 runs x 16 jobs, from an empty and from a seeded corpus) | 3-15 min |")
 # 5. appendix B
 a = s.index('## Appendix B. Order of work for the following phases')
 b = s.index('## Appendix C. Pitfalls already hit in the prototype')
